@@ -155,6 +155,7 @@ func (f fault) key() string { return f.Target + "/" + f.Name }
 func runC11(r *mon.Run, replay string) {
 	r.Rule("each case: a chainlab tree (victim chain, a sufficiently heavier valid chain held by the honest peer, and the Byzantine peer's material: corrupted blocks labelled by the pure oracle, header-only extensions, bad-work headers, same-id blocks with another body), one real victim syncer with an audited chain manager and an effective recording peer store, a Byzantine gateway peer on its own 127.x address scripted with ONE fault of the table (RPC x corruption x position first/middle/last) below or above the v2 require height, peer mix B / B+H / 2B+H, Byzantine first or simultaneous, either side dialling. Non-trivial = the scripted fault was actually delivered to the victim (counter faulted:<rpc>); signature = rpc/fault/position/regime/mix.")
 	r.Assume("bounded progress: with the honest peer connected the victim must reach the honest tip within 60 s (+35 s per SendHeaders request the Byzantine peer leaves unanswered, because that timeout is fixed at 30 s in the syncer); the honest peer re-announces its tip every 200 ms and the harness re-dials a lost honest connection every second")
+	r.Assume("an expired liveness deadline (progress, expected ban, honest multi-step sync) is a violation only if the case is demonstrably stuck: no manager call, no sync RPC at any real node or lab peer and no tip change for 12 s (and 150 polling iterations) with no call in flight, or 20+ activity events without progress for that window; otherwise the wait is extended to 4x the deadline and a case still moving then is counted as cases_inconclusive_slow_machine (run inconclusive above 5% + 2 cases)")
 	r.Assume("a ban is only demanded for offences the property calls provable and only when the Byzantine peer acted while the victim's tip was stable (Byzantine-first phase): insufficient-work relayed header/outline on the victim's tip, invalid relayed block, wrong/missing outline transactions, invalid or same-id-other-body block in a batch the victim tries to adopt, empty transaction set")
 	r.Assume("a Byzantine peer never advertises an honest peer's dial-back address (known C18 shutdown issue, excluded here); Close of every syncer runs under a 20 s watchdog")
 	r.Assume("resource exhaustion by volume and eclipse attacks (cloned unique id, address-space exhaustion) are out of scope")
@@ -187,6 +188,7 @@ func runC11(r *mon.Run, replay string) {
 		r.Inconclusive("development filter VERIF_C11_ONLY is set")
 	}
 	parallel(len(cases), r.Pick(12, 12), func(i int) { runByzCase(r, cases[i]) })
+	slowVerdict(r, len(cases))
 	r.Floor("faults_delivered", int64(len(cases)/2))
 	r.Floor("cases_with_honest_peer_reaching_honest_tip", int64(len(cases)/4))
 	r.Floor("bans_observed_total", 8)
@@ -796,23 +798,10 @@ func buildRelayFault(sc *scene, prof chainlab.Profile) {
 			b.Count("outline-with-missing-relayed", 1)
 			return err
 		}
-		// the outline was handled (pool lookup), the answer was written, and no
-		// "couldn't retrieve" error was logged well after the request timeout:
-		// the victim read the answer and judged it
-		sc.processed = func(v *p2plab.Node, b *p2plab.Byz, since int64) bool {
-			if v.ACM.HandlerReads("TransactionsForPartialBlock", types.BlockID{}, since) == 0 || b.Counter("answered:SendTransactions") == 0 {
-				return false
-			}
-			if time.Now().UnixNano()-b.LastFault.Load() < int64(4*time.Second) {
-				return false
-			}
-			for _, l := range v.LogTail() {
-				if strings.Contains(l, "couldn't retrieve missing transactions") {
-					return false
-				}
-			}
-			return true
-		}
+		// after the answer to SendTransactions the handler makes no observable
+		// call before its verdict, so receipt of a hit-and-run answer cannot be
+		// demonstrated: such a pair is judged only if the ban is observed
+		sc.processed = func(v *p2plab.Node, b *p2plab.Byz, since int64) bool { return false }
 	}
 }
 
@@ -1208,9 +1197,11 @@ func runByzCaseResult(r *mon.Run, cc c11Case) (res byzResult) {
 	rng := rand.New(rand.NewPCG(uint64(r.Seed)+911, cc.Stream))
 	slot := p2plab.NextSlot()
 	withH := cc.Mix != "B"
+	act := p2plab.NewActivity()
 	mk := func(name string, i int, tip *chainlab.Node) (*p2plab.Node, error) {
 		o := p2plab.NodeOpts{
-			Name: name, IP: p2plab.HonestIP(slot, i), Tree: t, Tip: tip,
+			Activity: act,
+			Name:     name, IP: p2plab.HonestIP(slot, i), Tree: t, Tip: tip,
 			SyncInterval: time.Duration(50+rng.IntN(50)) * time.Millisecond, DiscoveryInterval: time.Duration(50+rng.IntN(50)) * time.Millisecond,
 			RPCTimeout: 2 * time.Second,
 		}
@@ -1244,6 +1235,7 @@ func runByzCaseResult(r *mon.Run, cc c11Case) (res byzResult) {
 		return
 	}
 	installHooks(sc, b1)
+	b1.Activity = act
 	byz := []*p2plab.Byz{b1}
 	// with an honest peer in the case, the victim's own conduct towards honest
 	// peers is observed too: a lab observer (honest, at the victim's tip) records
@@ -1277,6 +1269,7 @@ func runByzCaseResult(r *mon.Run, cc c11Case) (res byzResult) {
 				sc2.cc = &cc2
 				installHooks(&sc2, b2)
 			}
+			b2.Activity = act
 			byz = append(byz, b2)
 		}
 	}
@@ -1354,6 +1347,7 @@ func runByzCaseResult(r *mon.Run, cc c11Case) (res byzResult) {
 	expectBan := f.Ban != "" && cc.Phased
 	banSeen := func() bool { return len(v.PS.BansFor(b1.IP)) > 0 }
 	delivered := false
+	var p1, hp *waiter
 	phase1 := func() {
 		connectByz(b1, cc.VictimDials)
 		doAction(b1)
@@ -1362,8 +1356,9 @@ func runByzCaseResult(r *mon.Run, cc c11Case) (res byzResult) {
 		if honestRow {
 			limit = 30 * time.Second
 		}
-		t0 := time.Now()
-		for time.Since(t0) < limit {
+		w1 := newWaiter(act, limit)
+		p1 = w1
+		for w1.step() == "" {
 			if sc.delivered(b1) {
 				delivered = true
 				if honestRow {
@@ -1396,6 +1391,7 @@ func runByzCaseResult(r *mon.Run, cc c11Case) (res byzResult) {
 		}
 		t0 := time.Now()
 		var announcing atomic.Bool
+		hp = newWaiter(act, c11ProgressBound)
 		for iter := 1; ; iter++ {
 			if v.CM.Tip().ID == sc.hTip.ID {
 				reached = true
@@ -1406,7 +1402,8 @@ func runByzCaseResult(r *mon.Run, cc c11Case) (res byzResult) {
 			for _, b := range byz {
 				bound += time.Duration(b.Counter("silence:SendHeaders")) * c11SilenceBonus
 			}
-			if time.Since(t0) > bound {
+			hp.deadline = bound
+			if hp.step() != "" {
 				return
 			}
 			if iter%4 == 0 && announcing.CompareAndSwap(false, true) {
@@ -1525,7 +1522,13 @@ func runByzCaseResult(r *mon.Run, cc c11Case) (res byzResult) {
 		if v.Mon.Tip() == sc.bTip {
 			r.Count("victims_synced_from_a_peer_answering_in_several_steps", 1)
 		} else {
-			r.Violation("stall:multistep-honest-answers:"+cc.Regime, "the only peer holds the heaviest valid chain and answers every block request honestly in several short steps, but the victim did not reach its tip within 30 s", cc, detail())
+			if p1.verdict == "slow" {
+				slowCase(r, fmt.Sprintf("C11 stream=%d multistep-honest-answers %v", cc.Stream, p1.info()))
+			} else {
+				d := detail()
+				d["liveness"] = p1.info()
+				r.Violation("stall:multistep-honest-answers:"+cc.Regime, "the only peer holds the heaviest valid chain and answers every block request honestly in several short steps, but the victim did not reach its tip within 30 s, and the case is "+p1.verdict, cc, d)
+			}
 		}
 	}
 	if f.Target == "control" {
@@ -1569,8 +1572,15 @@ func runByzCaseResult(r *mon.Run, cc c11Case) (res byzResult) {
 				sortStrings(cs)
 				sig = "stall:honest-peer-banned:" + strings.Join(cs, "+")
 			}
-			fmt.Printf("note: C11 stream=%d %s mix=%s phased=%v victim=%v want=%d peers=%v\n", cc.Stream, sig, cc.Mix, cc.Phased, v.Mon.Tip() != nil && v.Mon.Tip() == sc.hTip, sc.hTip.Height, peersNow)
-			r.Violation(sig, "with an honest peer holding the heaviest valid chain connected, the victim did not reach that chain within the bound", cc, detail())
+			fmt.Printf("note: C11 stream=%d %s (%s) mix=%s phased=%v want=%d peers=%v\n", cc.Stream, sig, hp.verdict, cc.Mix, cc.Phased, sc.hTip.Height, peersNow)
+			if hp.verdict == "slow" {
+				slowCase(r, fmt.Sprintf("C11 stream=%d %s %v", cc.Stream, sig, hp.info()))
+			} else {
+				r.Count("stalls_decided:"+hp.verdict, 1)
+				d := detail()
+				d["liveness"] = hp.info()
+				r.Violation(sig, "with an honest peer holding the heaviest valid chain connected, the victim did not reach that chain within the bound, and the case is "+hp.verdict, cc, d)
+			}
 		}
 	}
 	if obs != nil {
@@ -1610,8 +1620,14 @@ func runByzCaseResult(r *mon.Run, cc c11Case) (res byzResult) {
 		if len(byzBans) > 0 {
 			r.Count("expected_bans_observed:"+key, 1)
 		} else {
-			fmt.Printf("note: C11 stream=%d no-ban %s %s bans=%v\n", cc.Stream, key, cc.Regime, v.PS.Bans())
-			r.Violation("no-ban:"+key+":"+cc.Regime, "a provable offence ("+f.Ban+") did not lead to PeerStore.Ban for the Byzantine peer's address", cc, detail())
+			fmt.Printf("note: C11 stream=%d no-ban %s %s (%s) bans=%v\n", cc.Stream, key, cc.Regime, p1.verdict, v.PS.Bans())
+			if p1.verdict == "slow" {
+				slowCase(r, fmt.Sprintf("C11 stream=%d no-ban %s %v", cc.Stream, key, p1.info()))
+			} else {
+				d := detail()
+				d["liveness"] = p1.info()
+				r.Violation("no-ban:"+key+":"+cc.Regime, "a provable offence ("+f.Ban+") did not lead to PeerStore.Ban for the Byzantine peer's address", cc, d)
+			}
 		}
 	}
 	for _, fd := range v.Mon.Final() {
@@ -1633,7 +1649,7 @@ func runByzCaseResult(r *mon.Run, cc c11Case) (res byzResult) {
 	if cc.Stream%29 == 0 {
 		r.Sample(map[string]any{"case": cc, "delivered": delivered, "reached_honest_tip": reached, "progress_ms": progressMS, "byzantine_counters": b1.Counters(), "bans": v.PS.Bans()})
 	}
-	res = byzResult{ran: true, delivered: delivered, banned: len(byzBans) > 0, processed: processed}
+	res = byzResult{ran: true, delivered: delivered, banned: len(byzBans) > 0, processed: processed, slow: p1 != nil && p1.verdict == "slow"}
 	if cc.HangUp {
 		res.detail = detail()
 		res.detail["victim_log_tail"] = v.LogTail()
@@ -1742,6 +1758,7 @@ func (m *multiStep) answer(b *p2plab.Byz, r *gateway.RPCSendV2Blocks, variant, p
 // ---- hit and run --------------------------------------------------------------
 
 type byzResult struct {
+	slow      bool
 	ran       bool
 	delivered bool
 	banned    bool
@@ -1781,6 +1798,8 @@ func runHangUpPair(r *mon.Run, cc c11Case) {
 		r.Count("hit_and_run_pairs_judged", 1)
 		r.Count("hit_and_run_bans_observed:"+key, 1)
 		r.SetAdd("hit_and_run_rows_judged", key+"/"+cc.Regime)
+	case hu.slow:
+		slowCase(r, fmt.Sprintf("C11 stream=%d hit-and-run %s", cc.Stream, key))
 	case !hu.processed:
 		// the victim may never have read the message: no verdict
 		r.Count("hit_and_run_unjudged:receipt-not-demonstrated:"+key, 1)
